@@ -89,6 +89,10 @@ inductive AOp
   | call (c : Nat)
   | spawn (c : Nat)
   | ret
+  /-- the running function ends by an ERROR (raised in it or below it and not handled there):
+      its frame is popped without a return; whoever handles the error (`try`, the host that
+      made the `vm.Call`) goes on with the frames below -/
+  | abort
   deriving Repr, DecidableEq
 
 def AState.step (m : Mode) (s : AState) : AOp → Option AState
@@ -114,6 +118,11 @@ def AState.step (m : Mode) (s : AState) : AOp → Option AState
     | [_, _] :: vm :: vms => some { s with stacks := vm :: vms }     -- a thread finishes: its VM goes away
     | (_ :: b :: rest) :: vms => some { s with stacks := (b :: rest) :: vms }
     | _ => none
+  | .abort =>
+    match s.stacks with
+    | [_, _] :: vm :: vms => some { s with stacks := vm :: vms }     -- the error ends the thread
+    | (_ :: b :: rest) :: vms => some { s with stacks := (b :: rest) :: vms }
+    | _ => none
 
 def AState.run (m : Mode) : AState → List AOp → Option AState
   | s, [] => some s
@@ -124,6 +133,182 @@ def AState.run (m : Mode) : AState → List AOp → Option AState
 def AOp.depth1 : AOp → Bool
   | .makeClosure ds => ds.all (· == 0)
   | _ => true
+
+/-! ## 1b. Frame slots and the storage of local variables (model of vm/frame.go)
+
+`vm.frames` is an array of frame SLOTS that are re-used: the call at depth `k` always runs in
+`frames[k]`.  A slot has an inline array (`storage`, 8 entries), and its `locals` slice points
+either there or to a heap slice (`extendedLocals` for more than 8 locals; the copy
+`CaptureLocals` makes the first time a cell is taken).  `ActivateCode` resets the slot
+(`capturedLocals = nil`, storage zeroed, `locals` re-pointed) — that reset is the ONLY thing
+that separates a new activation from the previous user of the slot, and it happens at the
+start of the new activation, so it does not matter how the previous one ended: by
+`ReturnValue` (`FOp.ret`) or because an error propagated out of it (`FOp.abort`:
+`callFunction`'s deferred `resumeFrame` just moves `fp` back).  `LoadFast`/`StoreFast` go
+through `vm.activeFrame.Locals()` each time, i.e. through the slot's CURRENT `locals`.
+
+Heap addresses are allocation numbers (`make` never returns a slice that is still reachable),
+values are integers (0 = nil).  Fields marked ghost are not in the code. -/
+
+/-- function update (`vm.frames[k] = …`, `slice[i] = …`) -/
+def upd {α : Type} (f : Nat → α) (k : Nat) (v : α) : Nat → α := fun j => if j = k then v else f j
+
+/-- one entry of `vm.frames` -/
+structure FFrame where
+  /-- ghost: the activation that was last started in this slot -/
+  act : Nat
+  /-- `f.locals` is the heap slice at this address (`extendedLocals`, or the copy made by
+      `CaptureLocals`); `none`: it is the slot's inline `f.storage` -/
+  heapLoc : Option Nat
+  /-- `f.capturedLocals` (`none` = nil) -/
+  captured : Option Nat
+  deriving Repr, DecidableEq, Inhabited
+
+/-- `object.NewCell(&locals[idx])` -/
+structure FCell where
+  addr : Nat
+  idx : Nat
+  /-- ghost: the activation whose frame was captured -/
+  act : Nat
+  deriving Repr, DecidableEq, Inhabited
+
+structure FM where
+  /-- `frames[k].storage[i]` -/
+  inl : Nat → Nat → Int
+  /-- the heap slices, by address -/
+  heap : Nat → Nat → Int
+  /-- the next address `make` returns -/
+  next : Nat
+  /-- ghost: the activation a heap slice was allocated for -/
+  owner : Nat → Nat
+  frames : Nat → FFrame
+  fp : Nat
+  /-- ghost: activations started so far -/
+  nacts : Nat
+  /-- every cell made so far (`MakeCell` results, in order) -/
+  cells : List FCell
+  /-- the values loaded so far, most recent first -/
+  out : List Int
+
+inductive FOp
+  /-- `callFunction` → `ActivateFunction` on slot `fp+1` (`wide`: `LocalsCount > DefaultFrameLocals`) -/
+  | call (wide : Bool)
+  /-- `ReturnValue`: `resumeFrame(fp-1, …)` -/
+  | ret
+  /-- an error leaves the function (raised in it or below it): the frame is popped without a return -/
+  | abort
+  /-- `MakeCell idx back`: `frames[fp-back].CaptureLocals()`, `NewCell(&locals[idx])` -/
+  | makeCell (idx back : Nat)
+  | storeFast (idx : Nat) (v : Int)
+  | loadFast (idx : Nat)
+  | storeFree (cell : Nat) (v : Int)
+  | loadFree (cell : Nat)
+  deriving Repr, DecidableEq
+
+def FM.init : FM :=
+  { inl := fun _ _ => 0, heap := fun _ _ => 0, next := 0, owner := fun _ => 0,
+    frames := fun _ => { act := 0, heapLoc := none, captured := none }, fp := 0, nacts := 1, cells := [], out := [] }
+
+/-- `frames[k].locals[i]`: through the slot's current `locals` slice -/
+def FM.frameVal (s : FM) (k i : Nat) : Int :=
+  match (s.frames k).heapLoc with
+  | some a => s.heap a i
+  | none => s.inl k i
+
+/-- `vm.activeFrame.Locals()[idx]` -/
+def FM.readFast (s : FM) (idx : Nat) : Int := s.frameVal s.fp idx
+
+/-- `cell.Value()` -/
+def FM.readCell (s : FM) (c : FCell) : Int := s.heap c.addr c.idx
+
+def FM.step (s : FM) : FOp → Option FM
+  | .call wide =>
+    some { s with
+      frames := upd s.frames (s.fp + 1) { act := s.nacts, heapLoc := if wide then some s.next else none, captured := none },
+      inl := upd s.inl (s.fp + 1) (fun _ => 0),
+      heap := if wide then upd s.heap s.next (fun _ => 0) else s.heap,
+      owner := if wide then upd s.owner s.next s.nacts else s.owner,
+      next := if wide then s.next + 1 else s.next,
+      fp := s.fp + 1, nacts := s.nacts + 1 }
+  | .ret => if s.fp = 0 then none else some { s with fp := s.fp - 1 }
+  | .abort => if s.fp = 0 then none else some { s with fp := s.fp - 1 }
+  | .makeCell idx back =>
+    if back > s.fp then none
+    else
+      match (s.frames (s.fp - back)).captured, (s.frames (s.fp - back)).heapLoc with
+      | some a, _ => some { s with cells := s.cells ++ [⟨a, idx, (s.frames (s.fp - back)).act⟩] }
+      | none, some a =>
+        some { s with frames := upd s.frames (s.fp - back) { s.frames (s.fp - back) with captured := some a },
+                      cells := s.cells ++ [⟨a, idx, (s.frames (s.fp - back)).act⟩] }
+      | none, none =>
+        some { s with heap := upd s.heap s.next (s.inl (s.fp - back)),
+                      owner := upd s.owner s.next (s.frames (s.fp - back)).act,
+                      next := s.next + 1,
+                      frames := upd s.frames (s.fp - back) { s.frames (s.fp - back) with heapLoc := some s.next, captured := some s.next },
+                      cells := s.cells ++ [⟨s.next, idx, (s.frames (s.fp - back)).act⟩] }
+  | .storeFast idx v =>
+    match (s.frames s.fp).heapLoc with
+    | some a => some { s with heap := upd s.heap a (upd (s.heap a) idx v) }
+    | none => some { s with inl := upd s.inl s.fp (upd (s.inl s.fp) idx v) }
+  | .loadFast idx => some { s with out := s.readFast idx :: s.out }
+  | .storeFree c v =>
+    match s.cells[c]? with
+    | some cl => some { s with heap := upd s.heap cl.addr (upd (s.heap cl.addr) cl.idx v) }
+    | none => none
+  | .loadFree c =>
+    match s.cells[c]? with
+    | some cl => some { s with out := s.readCell cl :: s.out }
+    | none => none
+
+def FM.run : FM → List FOp → Option FM
+  | s, [] => some s
+  | s, op :: ops => (s.step op).bind fun s' => FM.run s' ops
+
+
+/-! ### what the storage discipline must implement: one variable per (activation, slot)
+
+The same operations on a machine that has no frame slots, no inline storage and no heap
+slices, only VARIABLES: `vars a i` is local `i` of activation `a`, created by the call that
+starts `a` and never shared with another activation.  A cell is the pair (activation, slot).
+This is the store the closure-language evaluator of section 2 uses (`St.acts`, `readCell`,
+`writeCell`); `frames_refine_variables` (Props) proves that the frame machine above shows
+exactly the same loads for every sequence of operations. -/
+
+structure VarM where
+  vars : Nat → Nat → Int
+  /-- frame index ↦ activation running there -/
+  stackf : Nat → Nat
+  fp : Nat
+  nacts : Nat
+  cells : List (Nat × Nat)
+  out : List Int
+
+def VarM.init : VarM :=
+  { vars := fun _ _ => 0, stackf := fun _ => 0, fp := 0, nacts := 1, cells := [], out := [] }
+
+def VarM.step (t : VarM) : FOp → Option VarM
+  | .call _ =>
+    some { t with stackf := upd t.stackf (t.fp + 1) t.nacts, vars := upd t.vars t.nacts (fun _ => 0),
+                  fp := t.fp + 1, nacts := t.nacts + 1 }
+  | .ret => if t.fp = 0 then none else some { t with fp := t.fp - 1 }
+  | .abort => if t.fp = 0 then none else some { t with fp := t.fp - 1 }
+  | .makeCell idx back =>
+    if back > t.fp then none else some { t with cells := t.cells ++ [(t.stackf (t.fp - back), idx)] }
+  | .storeFast idx v =>
+    some { t with vars := upd t.vars (t.stackf t.fp) (upd (t.vars (t.stackf t.fp)) idx v) }
+  | .loadFast idx => some { t with out := t.vars (t.stackf t.fp) idx :: t.out }
+  | .storeFree c v =>
+    match t.cells[c]? with
+    | some cl => some { t with vars := upd t.vars cl.1 (upd (t.vars cl.1) cl.2 v) }
+    | none => none
+  | .loadFree c =>
+    match t.cells[c]? with
+    | some cl => some { t with out := t.vars cl.1 cl.2 :: t.out }
+    | none => none
+
+def VarM.run : VarM → List FOp → Option VarM
+  | t, [] => some t
+  | t, op :: ops => (t.step op).bind fun t' => VarM.run t' ops
 
 /-! ## 2. The closure language -/
 
@@ -1042,7 +1227,8 @@ recorded in the innermost function only) and `RTm.mkfn`; `armMakeCell` → `capt
 `armStoreFree` → `loadRef`/`storeRef` on `Ref.free`; `callFunctionFrame` → `initLocals` (self
 slot) and `callVal` (a new frame on top of the running stack); `captureLocals` → cells are
 (activation, slot) pairs that alias the frame's own locals; `claimIndex`/`newBlock`/
-`compileBlockTables` → `FScope.declare`, `FScope.openBlock`, `FScope.closeBlock`. -/
+`compileBlockTables` → `FScope.declare`, `FScope.openBlock`, `FScope.closeBlock`;
+`activateCode`/`captureLocals`/`armLoadFast`/`armStoreFast` → the frame machine `FM` (section 1b). -/
 namespace Src
 
 def compileFuncEmits : List String := [
@@ -1095,6 +1281,31 @@ def captureLocals : List String := [
   "f.capturedLocals = newStorage",
   "f.locals = newStorage",
   "return newStorage"
+]
+
+/-- `FM.step (.call wide)`: the slot is reset when an activation STARTS in it — whatever the
+    previous user of the slot did and however it ended -/
+def activateCode : List String := [
+  "f.code = code",
+  "f.fn = nil",
+  "f.returnAddr = 0",
+  "f.localsCount = uint16(code.LocalsCount())",
+  "f.capturedLocals = nil",
+  "f.defers = nil",
+  "for i := 0; i < DefaultFrameLocals; i++ { f.storage[i] = nil }",
+  "if f.localsCount > DefaultFrameLocals { f.extendedLocals = make([]object.Object, f.localsCount) f.locals = f.extendedLocals } else { f.extendedLocals = nil f.locals = f.storage[:f.localsCount] }"
+]
+
+/-- `FM.readFast`: through the active frame's CURRENT `locals` -/
+def armLoadFast : List String := [
+  "vm.push(vm.activeFrame.Locals()[vm.fetch()])"
+]
+
+/-- `FM.step (.storeFast idx v)` -/
+def armStoreFast : List String := [
+  "idx := vm.fetch()",
+  "obj := vm.pop()",
+  "vm.activeFrame.Locals()[idx] = obj"
 ]
 
 /-- `FScope.declare`: a block table passes the claim up to the function table, whose next index
